@@ -8,6 +8,9 @@ from .alloc_model import ByteMap
 SIZES = [0, 1, 3, 8, 13, 16]
 GROWS = [0, 1, 8]
 MAXLIVE = 4
+import numpy as np
+
+NARROW = {"u8": np.uint8, "i8": np.int8, "i16": np.int16, "u16": np.uint16, "i64": np.int64}
 
 
 def kinds():
@@ -63,7 +66,10 @@ class Sys:
     want = "C12"
 
     def __init__(self, cfg, seed=0):
-        kind, cap0, al, gs = cfg
+        kind, cap0, al, gs = cfg[:4]
+        # optional: the kind of integer the request sizes are given as (numpy narrow kinds) and another size alphabet
+        self.ikind = NARROW[cfg[4]] if len(cfg) > 4 and cfg[4] else int
+        self.sizes = list(cfg[5]) if len(cfg) > 5 else SIZES
         self.cfg = cfg
         self.b = kinds()[kind](capacity=cap0, context=ctx(), default_alignment=al, grow_step=gs)
         self.m = ByteMap(cap0)
@@ -75,7 +81,7 @@ class Sys:
     def events(self):
         evs = []
         if len(self.live) < MAXLIVE:
-            for s in SIZES:
+            for s in self.sizes:
                 evs.append(("alloc", s, True))
                 if self.al > 1:
                     evs.append(("alloc", s, False))
@@ -101,7 +107,7 @@ class Sys:
             _, size, align = ev
             a = self.al if align else 1
             try:
-                off = b.allocate(size, align=align)
+                off = b.allocate(self.ikind(size), align=align)
             except Exception as e:
                 bad("C12.terminates", "allocate-raises:" + common.exc_failure(e), repr(e))
                 return False
@@ -157,7 +163,7 @@ class Sys:
         elif ev[0] == "free":
             r = self.live.pop(ev[1])
             try:
-                b.free(r[0], r[1])
+                b.free(r[0], self.ikind(r[1]))
             except Exception as e:
                 bad("C12.free-never-fails", "free-raises:" + common.exc_failure(e), repr(e))
                 return False
@@ -168,7 +174,7 @@ class Sys:
                 return False
         else:
             try:
-                b.grow(ev[1])
+                b.grow(self.ikind(ev[1]))
             except Exception as e:
                 bad("C12.terminates", "grow-raises:" + common.exc_failure(e), repr(e))
                 return False
@@ -211,7 +217,7 @@ def build(cfg, hist, seed, want="C12"):
 
 def explore(cfg, depth, seed, res, want, lookahead=True):
     """BFS over histories of `cfg` up to `depth`, plus one allocate-only look-ahead layer."""
-    feats = dict(kind=cfg[0], cap0=cfg[1], alignment=cfg[2], grow_step=cfg[3])
+    feats = dict(kind=cfg[0], cap0=cfg[1], alignment=cfg[2], grow_step=cfg[3], int_kind=cfg[4] if len(cfg) > 4 else None)
     seen = {build(cfg, [], seed, want).key()}
     res.states += 1
     res.cases += 1
@@ -279,7 +285,12 @@ def plan(tier):
             for cap0, al, gs in itertools.product(CAPS, ALS, GSS):
                 deep = cap0 in (0, 8) and al in (1, 4) and gs in (None, 8) and kind == "BufferNumpy"
                 out.append(((kind, cap0, al, gs), 4 if deep else 3))
-    else:
+    # request sizes given as narrow numpy integers, capacities near the end of their range (offset + size must not wrap)
+    for kind in ("BufferNumpy", "BufferByteArray"):
+        for cap0, al, gs, ik, sizes in ((250, 1, None, "u8", (200, 100, 60)), (120, 8, None, "i8", (100, 27, 8)), (250, 4, 8, "u8", (100, 99, 7)),
+                                        (32000, 1, None, "i16", (30000, 5000, 100)), (65000, 8, None, "u16", (60000, 6000, 24)), (250, 2, None, "i64", (200, 100, 60))):
+            out.append(((kind, cap0, al, gs, ik, sizes), 3 if tier == "quick" else 4))
+    if tier != "quick":
         for cap0, al, gs in itertools.product(CAPS, ALS, GSS):
             out.append((("BufferNumpy", cap0, al, gs), 5))
         for cap0, al, gs in itertools.product((0, 8), (1, 4, 64), (None, 8)):
